@@ -414,15 +414,29 @@ Definition arun (secret : str) (evs : list aevent) : astate :=
 
 (* ---- concurrent confirmations: SingleFlightProvider.Revoke, singleflight_middleware.go:138-145 and
    internal/pkg/singleflight/singleflight.go:49-76.  The provider the authenticator calls is wrapped:
-   Revoke runs under single.Do("Revoke/" ++ s.AccessToken, ...): while a call for a key is in
-   flight, every other caller with the SAME key makes no call of its own, waits, and receives the
-   leader's error value.  The key is the ACCESS token for every provider, also for Okta whose
-   Revoke sends the REFRESH token.
+   Revoke runs under single.Do of "Revoke/" ++ Sprintf(%q:%q, s.AccessToken, s.RefreshToken):
+   while a call for a key is in flight, every other caller with the SAME key makes no call of its own,
+   waits, and receives the leader's error value.  The key names BOTH tokens of the session (repaired
+   in 7e98525; before, it was the access token alone although Okta revokes the refresh token — C19-K1).
    Each critical section of Group.Do is one atomic event: [CReq] = a request reaches the provider layer
    (becomes leader of a new flight and calls the IdP, or joins the flight of its key), [CDone k] = the
    flight of key k completes and is removed from the map.  The leader's result is fixed by the IdP's
    answer to its call, so it is recorded when the flight is opened. ---- *)
-Definition flight_key (s : asession) : str := as_access s.
+(* fmt %q = strconv.Quote: the double quote (34) and the backslash (92) are backslash-escaped, printable
+   ASCII is written as is, every other byte as backslash x NN (lower-case hex).  Exact for printable-ASCII
+   tokens (what IdPs issue and the driver uses); for other bytes the model's hex escape stands in for Go's
+   escape of that byte or rune (named escapes, backslash-u forms) - all that matters is that equal keys
+   mean equal token pairs (flight_key_inj). *)
+Definition hex_lower (v : N) : N := if v <? 10 then 48 + v else 87 + v.
+Definition quote_byte (c : N) : str :=
+  if c =? 34 then [92; 34]
+  else if c =? 92 then [92; 92]
+  else if (32 <=? c) && (c <? 127) then [c]
+  else [92; 120; hex_lower (c / 16); hex_lower (c mod 16)].
+Definition quote_body (s : str) : str := flat_map quote_byte s.
+Definition quote (s : str) : str := 34 :: quote_body s ++ [34].
+
+Definition flight_key (s : asession) : str := quote (as_access s) ++ [58] ++ quote (as_refresh s).
 
 Record flight := { fl_key : str; fl_token : str; fl_ok : bool }.
 Fixpoint find_flight (k : str) (fl : list flight) : option flight :=
